@@ -311,13 +311,15 @@ def main(argv):
             continue
         p = os.path.join(VERIF, k['replay'])
         try:
-            v = replay_file(pid, p)
+            v = replay_file(pid, p, Ctx(pid, 'quick', 0, 0, 1, list(known)))
         except Exception:
             traceback.print_exc()
             print('HARNESS-ERROR property=%s replay %s crashed' % (pid, p))
             return 2
         reg['fixed_checked'] += 1
-        if v is not None:
+        if v is not None and v.signature in known:
+            known_seen[v.signature] = known_seen.get(v.signature, 0) + 1
+        elif v is not None:
             violations.append((v.signature, p, 'regression of fixed finding: ' + str(v.detail)))
     for sig, k in known.items():
         if not k.get('replay'):
